@@ -10,8 +10,8 @@ SPEC = dict(
     scope_note="kernel decided: Http1::RequestParser / Http1::ResponseParser, driven like ConnStateData::parseHttpRequest and HttpStateData::processReplyHeader, never report 'parsed OK' for a head larger than request_header_max_size / reply_header_max_size under any of the listed deliveries, and report 414/431 (requests) or header-too-large (replies) once the over-limit head has arrived; gap: that the callers turn this verdict into an error response and do not forward the request / relay the reply (client_side.cc, servers/Http1Server.cc, http.cc incl. its read-buffer cap), and limits on messages that do not go through these parsers",
     entries=dict(
         quick=[
-            _fam("c62_request", "request_header_max_size L symbolic in [40,47]; well-formed requests of every size S with |S-L| <= 2 of three shapes (long target + one field, long field, HTTP/0.9 line)" + _QD, _SZ),
-            _fam("c62_reply", "reply_header_max_size L symbolic in [40,47]; well-formed replies of every size S with |S-L| <= 2 of three shapes (long field, long reason phrase, ICY)" + _QD, _SZ),
+            _fam("c62_request", "request_header_max_size L symbolic in [40,47]; well-formed requests of every size S with |S-L| <= 2 of five shapes (long target + one field, long field, HTTP/0.9 line, an obs-fold with a long whitespace run, a whitespace-preceded line after the request line: the last two get their size from bytes the parser strips; only the over-limit verdict is claimed for them)" + _QD, _SZ),
+            _fam("c62_reply", "reply_header_max_size L symbolic in [40,47]; well-formed replies of every size S with |S-L| <= 2 of four shapes (long field, long reason phrase, ICY, an obs-fold with a long whitespace run)" + _QD, _SZ),
             _fam("c62_request_any", "three 27..30-byte request skeletons with 2-3 fully symbolic bytes ('GET' b '/ab HTTP/1.1' b LF 'H: vw' CRLF b LF; 'GET /a' b 'b HTTP/1.1' CRLF 'H:' b 'v' b 'w' CRLF CRLF; 'GET ' b b '/ HTTP/1.1' CRLF 'H: vw' CRLF CRLF), L symbolic within 2 of the skeleton size; every single split point and byte-by-byte; relaxed_header_parser in {0,1}", ("ok", "refused")),
             _fam("c62_reply_any", "28-byte reply skeleton with 4 fully symbolic bytes (delimiter, line ends, terminator), L symbolic within 2 of the skeleton size; every single split point and byte-by-byte; relaxed_header_parser in {0,1}", ("ok", "refused")),
             dict(name="c62_known_relaxed_ws", known=True, bounds="KNOWN FINDING C62-relaxed-whitespace only: 'GET ' b b '/ HTTP/1.1 CRLF H: vw CRLF CRLF' with relaxed_header_parser on and the first symbolic byte being relaxed whitespace, L within 2 of the size; its violation is listed in known_findings.json and printed as KNOWN-FINDING", reach=[], max_samples=0, sample_every=0),
